@@ -459,6 +459,74 @@ def gen_C15(seed, tier):
     return finish(g, out, samples, len(sigs) + nj)
 
 
+
+# ------------------------------------------------------------------------------------------------
+# C16: header-level operations on explicit arguments
+def gen_C16(seed, tier):
+    g = G.Gen(seed)
+    out, samples = ["case c16alg_0"], []
+    n = nmodels(tier, 40, 400)
+    cnt = 0
+
+    def xt():
+        return G.frs(g.frame(0.1))
+
+    def sv():
+        return G.frs(g.sv())
+
+    def rbi():
+        I = g.inertia()
+        return G.frs([g.pos()] + g.vec(-1, 1) + [I[0], I[3], I[4], I[6], I[7], I[8]])
+
+    def ang():
+        c, s = g.circle()
+        import math
+        q = F(math.atan2(float(s), float(c)))
+        return "%s %s %s" % (G.fr(q), G.fr(c), G.fr(s))
+
+    def quat(half_turn=False):
+        if half_turn:
+            # unit quaternion with w = 0 (rotation by pi): the trace of its matrix is -1
+            u = g.unit_vec()
+            g.r.shuffle(u)
+            return G.frs(u + [F(0)])
+        return G.frs(list(g.unit_quat()))
+
+    for i in range(n):
+        ops = [
+            "apply %s %s" % (xt(), sv()), "applyTranspose %s %s" % (xt(), sv()),
+            "applyAdjoint %s %s" % (xt(), sv()), "inverse %s" % xt(), "mul %s %s" % (xt(), xt()),
+            "mulAssign %s %s" % (xt(), xt()), "toMatrix %s" % xt(), "toMatrixAdjoint %s" % xt(),
+            "toMatrixTranspose %s" % xt(), "rbiMul %s %s" % (rbi(), sv()), "rbiAdd %s %s" % (rbi(), rbi()),
+            "rbiToMatrix %s" % rbi(), "rbiSetSpatialMatrix %s" % rbi(), "rbiFromMatrix %s" % rbi(),
+            "rbiFromMassComInertiaC %s %s %s" % (G.fr(g.pos()), G.frs(g.vec(-1, 1)), G.frs(g.inertia())),
+            "applyRBI %s %s" % (xt(), rbi()), "applyTransposeRBI %s %s" % (xt(), rbi()),
+            "crossm %s %s" % (sv(), sv()), "crossf %s %s" % (sv(), sv()), "crossmMat %s" % sv(),
+            "crossfMat %s" % sv(), "Xrot %s %s" % (ang(), G.frs(g.unit_vec())), "Xrotx %s" % ang(),
+            "Xroty %s" % ang(), "Xrotz %s" % ang(), "Xtrans %s" % G.frs(g.vec()), "skew %s" % G.frs(g.vec()),
+            "parallelAxis %s %s %s" % (G.frs(g.inertia()), G.fr(g.pos()), G.frs(g.vec(-1, 1))),
+            "qmul %s %s" % (quat(), quat()), "qconj %s" % quat(), "qtoMatrix %s" % quat(),
+            "qrotate %s %s" % (quat(), G.frs(g.vec())), "qomegaToQDot %s %s" % (quat(), G.frs(g.vec())),
+            "qroundtrip %s" % quat(), "qroundtrip %s" % quat(half_turn=True),
+        ]
+        # Gauss elimination with pivoting: random well-conditioned systems
+        k = g.r.randint(2, 5)
+        A = [[g.small(-3, 3) for _ in range(k)] for _ in range(k)]
+        for d in range(k):
+            A[d][d] += F(g.r.choice([-6, 6]))      # diagonally dominant
+        if g.r.random() < 0.5:
+            g.r.shuffle(A)                          # make pivoting do some work
+        b = [g.small(-3, 3) for _ in range(k)]
+        ops.append("gauss %d %s %s" % (k, " ".join(G.frs(r) for r in A), G.frs(b)))
+        for o in ops:
+            out.append("alg " + o)
+            cnt += 1
+            g.stats["op:" + o.split()[0]] += 1
+        if len(samples) < 2:
+            samples.append({"ops": [o[:120] for o in ops[:4]]})
+    return finish(g, out, samples, cnt)
+
+
 NOT_YET = {}
 
 COMMON_ASSUMPTIONS = ["double evaluation is compared with exact rational evaluation up to 1e-8*scale",
@@ -491,6 +559,10 @@ PROPS = {
     "C15": {"gen": gen_C15,
             "rule": "Join / Join-then-Separate on random body pairs and rational relative poses (every fifth pair with a massless first body); 1-3 setter calls (mass / com / inertia / all) on a movable body without attachments or on a fixed body (on movable, fixed or massless virtual parents), compared with a model built from scratch with the new parameters on InverseDynamics, CRBA, ForwardDynamics, CalcCenterOfMass; distinct = distinct (model shape, setter sequence) + number of body pairs",
             "explanation": "monitor: rigid union from the definitions (parallel-axis theorem about the union's centre of mass); twin comparison setter-model vs rebuilt model on the implementation; correspondence with the Lean Body.join/separate and setter model",
+            "assumptions": COMMON_ASSUMPTIONS},
+    "C16": {"gen": gen_C16,
+            "rule": "every compact operator of SpatialAlgebraOperators.h / Quaternion.h / rbdl_mathutils on random rational arguments (rational rotations, translations, inertias, unit quaternions incl. rotations by half a turn with trace -1, diagonally dominant shuffled systems for the Gauss solver); distinct = number of (operator, argument) pairs",
+            "explanation": "46 theorems: each compact operator equals its 6x6 matrix definition, composition laws, power invariance, quaternion laws; correspondence: the C++ operator vs the Lean definition on explicit arguments",
             "assumptions": COMMON_ASSUMPTIONS},
     "C12": {"gen": gen_C12, "rule": RULE_MODELS + "; random contact plane (unit normal, point off the origin)", "explanation": "monitor: definitions of mass, CoM, momentum, energies, ZMP on jets of the pose specification",
             "assumptions": COMMON_ASSUMPTIONS},
